@@ -3,5 +3,6 @@ CONSTANTS
   Impl = "intended"
   Walk = "sorted"
   Slices <- NoSlices
+  QuantsOf <- NoQuants
 SPECIFICATION TSpec
 CHECK_DEADLOCK FALSE
